@@ -77,6 +77,12 @@ class P:
         while self.peek() == ".":
             self.eat()
             f = self.eat()
+            if f == "is_power_of_two":
+                # usize::is_power_of_two: x != 0 && x & (x - 1) == 0  (N's `-` truncates at 0)
+                self.eat("(")
+                self.eat(")")
+                e = "(negb (%s =? 0) && (N.land %s (%s - 1) =? 0))" % (e, e, e)
+                continue
             if f not in ("max", "min"):
                 raise ExtractError("unknown method ." + f)
             self.eat("(")
